@@ -286,6 +286,16 @@ def _gbt_case(mon, rng):
                 cuts = sorted(rng.sample(range(1, n), min(n - 1, rng.randint(0, 4)))) if n > 1 else []
                 return [0, *cuts, n]
             oy, ox = split(NY), split(NX)
+            if rng.random() < 0.35:
+                # chunk tuples as dask hands them over: regular runs (equal chunks, a shorter last one) and zero-length chunks - at the end, at the start, in the middle
+                def regular(n):
+                    c = rng.randint(1, max(1, n))
+                    return [min(k * c, n) for k in range(-(-n // c) + 1)]
+                oy, ox = regular(NY), regular(NX)
+                for o in (oy, ox):
+                    if rng.random() < 0.5:
+                        k = rng.choice([len(o) - 1, len(o) - 1, 0, rng.randrange(len(o))])
+                        o.insert(k, o[k])  # an empty chunk at position k (the offsets repeat)
             how = (tuple(np.diff(oy).tolist()), tuple(np.diff(ox).tolist()))
         desc = {"gbox": gen.gbox_desc(gb), "tiles": how, "family": fam}
         gbt, e = call(GeoboxTiles, gb, how)
